@@ -149,6 +149,12 @@ def in_domain(case):
 # -------------------------------------------------------------------------------------------
 # oracle
 
+def _perfect_fit_padded(text):
+    """Half of the fixed strings are written (and read) as padded fields that the text fills exactly:
+    no padding byte is emitted, so they are as chunk-safe as plain fixed strings."""
+    return (len(text) + sum(map(ord, text[:3]))) % 2 == 1
+
+
 def _write_field(w, f):
     k = f[0]
     if k == "char":
@@ -160,9 +166,9 @@ def _write_field(w, f):
     if k == "int":
         return w.add_int(f[1])
     if k == "fixed":
-        return w.add_fixed_string(f[1], len(f[1]))
+        return w.add_fixed_string(f[1], len(f[1]), _perfect_fit_padded(f[1]))
     if k == "efixed":
-        return w.add_fixed_encoded_string(f[1], len(f[1]))
+        return w.add_fixed_encoded_string(f[1], len(f[1]), _perfect_fit_padded(f[1]))
     if k == "string":
         return w.add_string(f[1])
     if k == "estring":
@@ -181,9 +187,9 @@ def _read_field(r, f):
     if k == "int":
         return r.get_int()
     if k == "fixed":
-        return r.get_fixed_string(len(f[1]))
+        return r.get_fixed_string(len(f[1]), _perfect_fit_padded(f[1]))
     if k == "efixed":
-        return r.get_fixed_encoded_string(len(f[1]))
+        return r.get_fixed_encoded_string(len(f[1]), _perfect_fit_padded(f[1]))
     if k == "string":
         return r.get_string()
     if k == "estring":
@@ -196,7 +202,11 @@ def _read_surplus(r, s):
     if k == "byte":
         return r.get_byte()
     if k == "bytes":
-        return bytes(r.get_bytes(s[1])).hex()
+        buf = r.get_bytes(s[1])
+        out = bytes(buf).hex()
+        if isinstance(buf, bytearray):
+            buf.extend(b"\xaa\xbb")     # the caller owns the returned array and may reuse it
+        return out
     if k == "string":
         return r.get_string()
     if k == "estring":
